@@ -290,7 +290,11 @@ func (bc *BoundsAnalyzer) feasibleAlternatives(
 	if pred.Symbol == symbols.MatchField.Symbol {
 		tpe := boundOfArg(args[0], varRanges, bc.nameTrie)
 		if symbols.IsStructTypeExpression(tpe) || symbols.IsTaggedUnionTypeExpression(tpe) || symbols.IsUnionTypeExpression(tpe) {
-			fieldTpe, err := symbols.StructTypeField(tpe, args[1].(ast.Constant))
+			field, ok := args[1].(ast.Constant)
+			if !ok {
+				return nil, nil, fmt.Errorf("pred %v on args %v: field selector must be a constant", pred, args)
+			}
+			fieldTpe, err := symbols.StructTypeField(tpe, field)
 			if err != nil {
 				return nil, nil, err
 			}
